@@ -1,6 +1,6 @@
 /-
   Props/C14_race.lean — property C14, part 2c: a parked read raced by data arrival and cancellation
-  from another thread (608 reachable states; in its own file so that it builds in parallel).
+  from another thread (756 reachable states; in its own file so that it builds in parallel).
   INSTANCE theorem: every schedule of `rd_cancel_race`: the `fetch_add` election on `state_` lets
   exactly one of {I/O completion, cancellation} complete the operation, exactly once; a value is
   the byte count of the successful readv; nothing waits forever.  (`clean` does NOT hold here:
@@ -12,7 +12,7 @@ namespace Unifex.Props.C14
 open Unifex.Core Unifex.Proto.EpollOp
 
 theorem rd_cancel_race_safe : ∀ s, Reach (sys cfgRdCancelRace) s → safe cfgRdCancelRace s = true :=
-  safe_of_check _ { coded with M := 1223, W := 176 } 400 _ (by decide +kernel)
+  safe_of_check _ { coded with M := 1523, W := 176 } 400 _ (by decide +kernel)
 
 
 theorem race_witness (cs : List Nat) (good : St → Bool)
